@@ -2,8 +2,13 @@
  *
  *   idl new <chan> <addr> <fill>   -> ok | ok null        (vbi_idl_a_demux_new; the allocator returns
  *                                                          memory filled with byte <fill>)
+ *   idl newfmt <format> <chan> <addr> -> ok | ok null | rej format   (vbi_malloc + _vbi_idl_demux_init with any of
+ *                                                          the five _VBI_IDL_FORMAT_* values, on zeroed memory;
+ *                                                          another format value would run into assert (0), it
+ *                                                          is answered `rej format` without calling zvbi)
  *   idl feed <42B>                 -> ok <ret> [cb <flags> <bytes>]
  *   idl reset                      -> ok
+ *   idl state                      -> ok <format> <channel> <address> <ci> <ri> <flags>   (the struct fields)
  *   idl crctab                     -> ok <256 x uint16 big endian>   (idl_a_crc_table as compiled)
  *   pfc new <pgno> <stream>        -> ok
  *   pfc feed <42B>                 -> ok <ret> [blk <app> <size> <bytes>]*
@@ -67,6 +72,26 @@ static void do_idl(void)
 		idl = vbi_idl_a_demux_new((unsigned int) a, (unsigned int) b, idl_cb, NULL);
 		h_fill = 0;
 		printf(idl ? "ok\n" : "ok null\n");
+	} else if (H_IS(1, "newfmt") && h_ntok == 5) {
+		vbi_idl_demux *dx;
+		if (!h_int(h_tok[2], &a) || !h_int(h_tok[3], &b) || !h_int(h_tok[4], &c)
+		    || a < 0 || a > 0xFFFFFFFFLL || b < 0 || b > 0xFFFFFFFFLL || c < 0 || c > 0xFFFFFFFFLL) {
+			printf("rej parse\n"); return;
+		}
+		if (a != _VBI_IDL_FORMAT_A && a != _VBI_IDL_FORMAT_B && a != _VBI_IDL_FORMAT_DATAVIDEO
+		    && a != _VBI_IDL_FORMAT_AUDETEL && a != _VBI_IDL_FORMAT_LBRA) {
+			printf("rej format\n"); return;	/* default: assert (0) in _vbi_idl_demux_init */
+		}
+		vbi_idl_demux_delete(idl); idl = NULL;
+		h_fill = 0;
+		dx = vbi_malloc(sizeof(*dx));		/* as vbi_idl_a_demux_new() does */
+		if (!dx) { printf("rej alloc\n"); return; }
+		if (!_vbi_idl_demux_init(dx, (_vbi_idl_format) a, (unsigned int) b, (unsigned int) c, idl_cb, NULL)) {
+			vbi_free(dx);
+			dx = NULL;
+		}
+		idl = dx;
+		printf(idl ? "ok\n" : "ok null\n");
 	} else if (H_IS(1, "feed") && h_ntok == 3) {
 		int n; uint8_t *buf = h_hex(h_tok[2], &n);
 		if (!buf || n != 42) { free(buf); printf("rej parse\n"); return; }
@@ -86,6 +111,10 @@ static void do_idl(void)
 		if (!idl) { printf("rej state\n"); return; }
 		vbi_idl_demux_reset(idl);
 		printf("ok\n");
+	} else if (H_IS(1, "state") && h_ntok == 2) {
+		if (!idl) { printf("rej state\n"); return; }
+		printf("ok %u %u %u %d %d %u\n", (unsigned int) idl->format, (unsigned int) idl->channel,
+		       (unsigned int) idl->address, idl->ci, idl->ri, idl->flags);
 	} else if (H_IS(1, "crctab") && h_ntok == 2) {
 		int i;
 		if (0 == idl_a_crc_table[1]) {
